@@ -60,6 +60,20 @@ CHECKS["C02"] = dict(
     technique="TLA+ spec (Calendar/NameProps/NameMatch) model-checked with TLC; TLC-generated cases replayed into "
               "FileSet.get_filename/parse_filename/get_info")
 
+CHECKS["C06"] = dict(
+    text="GeoIndexProps.tla states the answer on an abstract ring (pair set = ring distance <= k, each once, with its "
+         "distance class); ShuffleDesign.tla (shuffle, raw tree answer, index translation) is model-checked against it for "
+         "ALL permutations; TLC-enumerated (build, query) sequences with the oracle per radius class are replayed on the real "
+         "GeoIndex with every permutation forced through numpy.random.shuffle, on three great-circle embeddings (date line, "
+         "poles, tilted), both metrics/trees, leaf sizes, seven spellings of r, shuffle off, return_distance=False; random "
+         "sessions on a 24-ring (up to 200 points, real seeded shuffles) are validated by GeoTrace.tla.",
+    ref="DESIGN.md §5 C06",
+    note="Trusted: TLC, GeoIndexProps (~30 lines), the ring embedding (thresholds sit mid-gap, hundreds of km from any "
+         "class, so floating point cannot flip membership) and the harness' chord/arc formulas used only to classify "
+         "REPORTED distances (rel 1e-6). The class 'exactly half the circumference' is exercised for the chord metric only.",
+    technique="TLA+ spec (GeoIndexProps/ShuffleDesign) model-checked with TLC; TLC-generated cases replayed into GeoIndex with "
+              "forced shuffle permutations; recorded traces validated by TLC (GeoTrace)")
+
 NOT_APPLICABLE = {
     "C07": "Every clause concerns floating-point accuracy of sin/cos/arctan2/sqrt compositions or convergence of a "
            "fixed-point iteration over a continuous domain; TLA+/TLC has no reals or transcendental functions and there "
